@@ -80,6 +80,13 @@ func (g *Group) AddGroup(shortDescription string, longDescription string, data i
 // AddOption adds a new option to this group.
 func (g *Group) AddOption(option *Option, data interface{}) {
 	option.value = reflect.ValueOf(data)
+
+	// Bind the variable data points to, like an option that comes from a
+	// struct field, so that it can be emptied and given its defaults
+	if option.value.Kind() == reflect.Ptr && !option.value.IsNil() {
+		option.value = option.value.Elem()
+	}
+
 	option.group = g
 	g.options = append(g.options, option)
 }
